@@ -15,25 +15,35 @@ def ekey (x : MEntry) : Nat × Nat × List Nat := (x.1, x.2.id, x.2.data)
 def StKept (R : List (Nat × Nat)) (L L' : List MEntry) : Prop :=
   ∀ (n : Nat) (x x' : MEntry), L[n]? = some x → L'[n]? = some x' → x.2.st ≠ 0 → (x'.2.st ≠ 0 ∨ (x.1, x.2.id) ∈ R)
 
+/-- position by position: a confirmed entry stays confirmed (it is never handed out for transmission again) -/
+def CfKept (L L' : List MEntry) : Prop :=
+  ∀ (n : Nat) (x x' : MEntry), L[n]? = some x → L'[n]? = some x' → x.2.st = 0 → x'.2.st = 0
+
 def KeptX (R : List (Nat × Nat)) (q q' : MsgQueue) : Prop :=
   ∀ up low, MqInv q up low → ∃ up' low' k, MqInv q' up' low' ∧
     (∀ x ∈ (up ++ low).take k, (x.1, x.2.id) ∈ R) ∧
     (up' ++ low').map ekey = ((up ++ low).drop k).map ekey ∧
-    StKept R ((up ++ low).drop k) (up' ++ low')
+    StKept R ((up ++ low).drop k) (up' ++ low') ∧
+    CfKept ((up ++ low).drop k) (up' ++ low')
 
 theorem KeptX.refl (R : List (Nat × Nat)) (q : MsgQueue) : KeptX R q q := by
   intro up low h
-  refine ⟨up, low, 0, h, by simp, by simp, ?_⟩
-  intro n x x' h1 h2 hs
-  simp only [List.drop_zero] at h1
-  rw [h1] at h2
-  cases h2
-  exact Or.inl hs
+  refine ⟨up, low, 0, h, by simp, by simp, ?_, ?_⟩
+  · intro n x x' h1 h2 hs
+    simp only [List.drop_zero] at h1
+    rw [h1] at h2
+    cases h2
+    exact Or.inl hs
+  · intro n x x' h1 h2 hs
+    simp only [List.drop_zero] at h1
+    rw [h1] at h2
+    cases h2
+    exact hs
 
 theorem KeptX.mono {R R' : List (Nat × Nat)} (hR : ∀ r ∈ R, r ∈ R') {q q' : MsgQueue} (h : KeptX R q q') : KeptX R' q q' := by
   intro up low hi
-  obtain ⟨up', low', k, h1, h2, h3, h4⟩ := h up low hi
-  refine ⟨up', low', k, h1, fun x hx => hR _ (h2 x hx), h3, ?_⟩
+  obtain ⟨up', low', k, h1, h2, h3, h4, h5⟩ := h up low hi
+  refine ⟨up', low', k, h1, fun x hx => hR _ (h2 x hx), h3, ?_, h5⟩
   intro n x x' a b c
   rcases h4 n x x' a b c with h | h
   · exact Or.inl h
@@ -46,9 +56,9 @@ theorem ekey_eq {x y : MEntry} (h : ekey x = ekey y) : x.1 = y.1 ∧ x.2.id = y.
 
 theorem KeptX.trans {R : List (Nat × Nat)} {a b c : MsgQueue} (h1 : KeptX R a b) (h2 : KeptX R b c) : KeptX R a c := by
   intro up low hi
-  obtain ⟨up1, low1, k1, i1, t1, m1, s1⟩ := h1 up low hi
-  obtain ⟨up2, low2, k2, i2, t2, m2, s2⟩ := h2 up1 low1 i1
-  refine ⟨up2, low2, k1 + k2, i2, ?_, ?_, ?_⟩
+  obtain ⟨up1, low1, k1, i1, t1, m1, s1, c1⟩ := h1 up low hi
+  obtain ⟨up2, low2, k2, i2, t2, m2, s2, c2⟩ := h2 up1 low1 i1
+  refine ⟨up2, low2, k1 + k2, i2, ?_, ?_, ?_, ?_⟩
   · -- the dropped prefix: the first k1 entries, then k2 entries whose keys are those of dropped entries of the middle ring
     intro x hx
     obtain ⟨n, hn⟩ := List.getElem?_of_mem hx
@@ -90,6 +100,15 @@ theorem KeptX.trans {R : List (Nat × Nat)} {a b c : MsgQueue} (h1 : KeptX R a b
         · exact Or.inl h
         · rw [e1, e2] at h; exact Or.inr h
       · exact Or.inr hr
+  · intro n x x'' hx hx'' hs
+    rw [← List.drop_drop, List.getElem?_drop] at hx
+    have hm : ((up1 ++ low1).map ekey)[k2 + n]? = some (ekey x) := by rw [m1, List.getElem?_map, hx]; rfl
+    rw [List.getElem?_map] at hm
+    cases hy : (up1 ++ low1)[k2 + n]? with
+    | none => rw [hy] at hm; cases hm
+    | some y =>
+      have hyd : ((up1 ++ low1).drop k2)[n]? = some y := by rw [List.getElem?_drop]; exact hy
+      exact c2 n y x'' hyd hx'' (c1 (k2 + n) x y hx hy hs)
 
 theorem updSt_ekey (o st : Nat) (x : MEntry) : ekey (updSt o st x) = ekey x := by
   unfold updSt ekey; split <;> rfl
@@ -97,10 +116,11 @@ theorem updSt_ekey (o st : Nat) (x : MEntry) : ekey (updSt o st x) = ekey x := b
 theorem map_updSt_ekey (o st : Nat) (l : List MEntry) : (l.map (updSt o st)).map ekey = l.map ekey := by
   rw [List.map_map]; congr 1; funext x; exact updSt_ekey o st x
 
-/-- a state change to a state other than "confirmed" keeps everything -/
-theorem kept_setState (R : List (Nat × Nat)) (q : MsgQueue) (o st : Nat) (hst : st ≠ 0) : KeptX R q (q.setState o st) := by
+/-- a state change of a not-confirmed entry to a state other than "confirmed" keeps everything -/
+theorem kept_setState (R : List (Nat × Nat)) (q : MsgQueue) (o st : Nat) (hst : st ≠ 0)
+    (hcur : ∀ e, q.get o = some e → e.st ≠ 0) : KeptX R q (q.setState o st) := by
   intro up low h
-  refine ⟨_, _, 0, setState_inv q up low h o st, by simp, ?_, ?_⟩
+  refine ⟨_, _, 0, setState_inv q up low h o st, by simp, ?_, ?_, ?_⟩
   · rw [← List.map_append, map_updSt_ekey]; simp
   · intro n x x' h1 h2 hs
     simp only [List.drop_zero] at h1
@@ -112,13 +132,36 @@ theorem kept_setState (R : List (Nat × Nat)) (q : MsgQueue) (o st : Nat) (hst :
     split
     · exact hst
     · exact hs
+  · intro n x x' h1 h2 hs
+    simp only [List.drop_zero] at h1
+    rw [← List.map_append, List.getElem?_map, h1] at h2
+    simp only [Option.map_some, Option.some.injEq] at h2
+    subst h2
+    unfold updSt
+    split
+    · rename_i hx
+      exfalso
+      have := h.data x (List.mem_of_getElem? h1)
+      rw [hx] at this
+      exact hcur x.2 this hs
+    · exact hs
 
 /-- confirming the entry at `o`: only entries at that offset change, and they are the one the reference names -/
 theorem kept_setState0 (q : MsgQueue) (o id : Nat) (e : QEntry) (hg : q.get o = some e) (hid : e.id = id) :
     KeptX [(o, id)] q (q.setState o 0) := by
   intro up low h
-  refine ⟨_, _, 0, setState_inv q up low h o 0, by simp, ?_, ?_⟩
+  refine ⟨_, _, 0, setState_inv q up low h o 0, by simp, ?_, ?_, ?_⟩
   · rw [← List.map_append, map_updSt_ekey]; simp
+  rotate_left
+  · intro n x x' h1 h2 hs
+    simp only [List.drop_zero] at h1
+    rw [← List.map_append, List.getElem?_map, h1] at h2
+    simp only [Option.map_some, Option.some.injEq] at h2
+    subst h2
+    unfold updSt
+    split
+    · rfl
+    · exact hs
   · intro n x x' h1 h2 hs
     simp only [List.drop_zero] at h1
     rw [← List.map_append, List.getElem?_map, h1] at h2
@@ -156,14 +199,20 @@ theorem kept_removeFirst (R : List (Nat × Nat)) (q : MsgQueue) (o id : Nat) (e 
       rw [hx, hu0, hu0e, hid]; exact hR
     by_cases hr : rest = []
     · subst hr
-      refine ⟨low, [], 1, h2 rfl, hdrop, by simp, ?_⟩
-      intro n x x' a b c
-      simp at a b
-      rw [a] at b; cases b; exact Or.inl c
-    · refine ⟨rest, low, 1, h1 hr, hdrop, by simp, ?_⟩
-      intro n x x' a b c
-      simp at a b
-      rw [a] at b; cases b; exact Or.inl c
+      refine ⟨low, [], 1, h2 rfl, hdrop, by simp, ?_, ?_⟩
+      · intro n x x' a b c
+        simp at a b
+        rw [a] at b; cases b; exact Or.inl c
+      · intro n x x' a b c
+        simp at a b
+        rw [a] at b; cases b; exact c
+    · refine ⟨rest, low, 1, h1 hr, hdrop, by simp, ?_, ?_⟩
+      · intro n x x' a b c
+        simp at a b
+        rw [a] at b; cases b; exact Or.inl c
+      · intro n x x' a b c
+        simp at a b
+        rw [a] at b; cases b; exact c
 
 /-- **`markAsduAsConfirmed` with ANY reference (offset, id)**: nothing is removed or confirmed but the entry the reference
 designates -/
@@ -195,17 +244,41 @@ theorem kept_markConfirmed (q : MsgQueue) (o id : Nat) : KeptX [(o, id)] q (q.ma
   · exact KeptX.refl _ _
 
 theorem kept_getNextWaiting (R : List (Nat × Nat)) (q : MsgQueue) : KeptX R q q.getNextWaiting.1 := by
-  unfold MsgQueue.getNextWaiting
-  repeat' split
-  all_goals first
-    | exact KeptX.refl _ _
-    | exact kept_setState _ _ _ _ (by decide)
+  intro up low h
+  have hr := getNextWaiting_refines q up low h
+  cases hfind : (up ++ low).find? (fun x => x.2.st == 1) with
+  | none =>
+    rw [hfind] at hr
+    simp only at hr
+    rw [hr]
+    exact KeptX.refl R q up low h
+  | some x =>
+    rw [hfind] at hr
+    simp only at hr
+    rw [hr.1]
+    have hx : x ∈ up ++ low := List.mem_of_find?_eq_some hfind
+    have hst : x.2.st = 1 := by have := List.find?_some hfind; simpa using this
+    exact kept_setState R q x.1 2 (by decide) (fun e he => by
+      rw [h.data x hx] at he
+      have : x.2 = e := by simpa using he
+      rw [← this, hst]; decide) up low h
 
 theorem kept_setEntryWaiting (R : List (Nat × Nat)) (q : MsgQueue) (o id : Nat) : KeptX R q (q.setEntryWaiting o id) := by
   unfold MsgQueue.setEntryWaiting
-  repeat' split
-  all_goals first
-    | exact KeptX.refl _ _
-    | exact kept_setState _ _ _ _ (by decide)
+  split
+  · split
+    · split
+      · rename_i e hg
+        split
+        · rename_i hc
+          simp only [Bool.and_eq_true, beq_iff_eq] at hc
+          exact kept_setState R q o 1 (by decide) (fun e' he' => by
+            rw [hg] at he'
+            have : e = e' := by simpa using he'
+            rw [← this, hc.2]; decide)
+        · exact KeptX.refl _ _
+      · exact KeptX.refl _ _
+    · exact KeptX.refl _ _
+  · exact KeptX.refl _ _
 
 end Iec.Queues
